@@ -2,6 +2,14 @@
 //   encode_length_prefixed(src, dst): dst' = old(dst) ++ be16(len(src)) ++ src        (len <= 65535)
 //   decode_length_prefixed(src): fewer than 2+len bytes buffered -> None, src untouched;
 //                                otherwise Some(payload) and src advanced by exactly 2+len.
+//
+// Every harness ends by `mem::forget`-ing the buffers it made: the drop glue of a promoted
+// (shared) BytesMut / Bytes (`release_shared` -> `Box<Shared>` -> `Vec` dealloc through a
+// pointer rebuilt from integer arithmetic) is what exhausted CBMC's memory in the first
+// draft; it is the allocator's business, not the framing functions'.
+
+const BUF: usize = 6; // bytes buffered at most (2-byte header + <= 4 payload bytes)
+const PAY: usize = 4;
 
 fn buf_from(bytes: &[u8]) -> BytesMut {
     let mut b = BytesMut::with_capacity(16);
@@ -12,9 +20,9 @@ fn buf_from(bytes: &[u8]) -> BytesMut {
 #[kani::proof]
 #[kani::unwind(8)]
 fn contract_encode_length_prefixed() {
-    let payload: [u8; 3] = kani::any();
+    let payload: [u8; PAY] = kani::any();
     let n: usize = kani::any();
-    kani::assume(n <= 3);
+    kani::assume(n <= PAY);
     let pre: u8 = kani::any();
     let mut dst = buf_from(&[pre]);
     encode_length_prefixed(&payload[..n], &mut dst);
@@ -26,18 +34,22 @@ fn contract_encode_length_prefixed() {
         assert!(dst[3 + i] == payload[i]);
         i += 1;
     }
+    std::mem::forget(dst);
 }
 
-/// decode on an arbitrary 5-byte buffer prefix (any claimed length in the full u16 range).
+/// decode on an arbitrary buffered prefix of <= BUF bytes (any claimed length in the full
+/// u16 range): None + untouched when incomplete, else the payload and exactly 2+len consumed.
 #[kani::proof]
 #[kani::unwind(8)]
 fn contract_decode_length_prefixed() {
-    let raw: [u8; 5] = kani::any();
+    let raw: [u8; BUF] = kani::any();
     let have: usize = kani::any();
-    kani::assume(have <= 5);
+    kani::assume(have <= BUF);
     let mut src = buf_from(&raw[..have]);
     let claimed = u16::from_be_bytes([raw[0], raw[1]]) as usize;
     let r = decode_length_prefixed(&mut src);
+    kani::cover!(have >= 2 && have - 2 >= claimed && claimed == PAY);
+    kani::cover!(have >= 2 && have - 2 < claimed);
     if have < 2 || have - 2 < claimed {
         // incomplete frame: nothing consumed, nothing returned
         assert!(r.is_none());
@@ -48,7 +60,7 @@ fn contract_decode_length_prefixed() {
             i += 1;
         }
     } else {
-        match r {
+        match &r {
             None => assert!(false),
             Some(p) => {
                 assert!(p.len() == claimed);
@@ -67,38 +79,58 @@ fn contract_decode_length_prefixed() {
             }
         }
     }
+    std::mem::forget(r);
+    std::mem::forget(src);
 }
 
-/// round trip: decode(encode(p)) == p and leaves what followed.
-#[kani::proof]
-#[kani::unwind(8)]
-fn lemma_framing_round_trip() {
-    let payload: [u8; 3] = kani::any();
-    let n: usize = kani::any();
-    kani::assume(n <= 3);
+/// round trip: decode(encode(p) ++ rest) == p and leaves `rest`; one payload length per call
+/// (concrete length, symbolic content) so that buffer offsets stay concrete.
+fn round_trip<const N: usize>() {
+    let payload: [u8; N] = kani::any();
     let mut buf = BytesMut::with_capacity(16);
-    encode_length_prefixed(&payload[..n], &mut buf);
+    encode_length_prefixed(&payload, &mut buf);
     let extra: u8 = kani::any();
     buf.extend_from_slice(&[extra]);
-    match decode_length_prefixed(&mut buf) {
+    let r = decode_length_prefixed(&mut buf);
+    match &r {
         None => assert!(false),
         Some(p) => {
-            assert!(p.len() == n);
+            assert!(p.len() == N);
             let mut i = 0;
-            while i < n {
+            while i < N {
                 assert!(p[i] == payload[i]);
                 i += 1;
             }
             assert!(buf.len() == 1 && buf[0] == extra);
         }
     }
+    std::mem::forget(r);
+    std::mem::forget(buf);
+}
+
+#[kani::proof]
+#[kani::unwind(8)]
+fn lemma_framing_round_trip_short() {
+    round_trip::<0>();
+    round_trip::<1>();
+    round_trip::<2>();
+}
+
+#[kani::proof]
+#[kani::unwind(8)]
+fn lemma_framing_round_trip_long() {
+    round_trip::<3>();
+    round_trip::<4>();
 }
 
 /// Vacuity canary: must FAIL.
 #[kani::proof]
 #[kani::unwind(8)]
 fn canary_decode_always_none() {
-    let raw: [u8; 5] = kani::any();
+    let raw: [u8; BUF] = kani::any();
     let mut src = buf_from(&raw);
-    assert!(decode_length_prefixed(&mut src).is_none());
+    let r = decode_length_prefixed(&mut src);
+    assert!(r.is_none());
+    std::mem::forget(r);
+    std::mem::forget(src);
 }
